@@ -2,7 +2,7 @@
 (* record (harness/c02child.py), one checked load:                            *)
 (*  arm, kind, t (threshold rank), v (rank the library gives A, 9 = analysis  *)
 (*  raises), out ("returned" | "unsafe" | "other"), info (rank carried by the *)
-(*  unsafe-file error, -1 none), resolved (number of pickle.find_class audit  *)
+(*  unsafe-file error, -1 none), resolved (find_class + import-of-named-module*)
 (*  events during the call), ranA / ranB (sink calls of A / of the swapped-in  *)
 (*  B), eq_stock (returned object equals the stock unpickler's for A)          *)
 EXTENDS Integers, Sequences, TLC, Json, IOUtils, TLCExt
